@@ -45,7 +45,7 @@ class C06(BaseCheck):
   REQUIRED_CLASSES = ('phase:in-band', 'phase:pinned-max', 'phase:pinned-min', 'phase:pinned-members',
                       'expansion', 'contraction', 'jitter-round', 'member-down', 'leave-active',
                       'leave-during-jitter-round', 'close-raises-in-jitter-round',
-                      'second-balancer-connecting', 'wall-clock-steps-back', 'yielding-log-handler', 'leave-at-jitter-start', 'phase:trickle')
+                      'second-balancer-connecting', 'wall-clock-steps-back', 'yielding-log-handler', 'leave-at-jitter-start', 'phase:trickle', 'requests-outlive-mark-down')
   ASSUMPTIONS = ('smoothed load = harness reference EMA with the balancer\'s documented 5 s window and the '
                  'same sampling points, on the documented clock (wall time while it moves forward; standing still while a stepped-back wall clock is behind an earlier reading) (cross-checked against the published load_average gauge); phases whose '
                  'per-member load is within 1e-6 of a band edge for a relevant size are skipped and counted',
@@ -399,9 +399,19 @@ class C06(BaseCheck):
           if cands:
             c = rng.choice(cands)
 
-            def down(c=c):
+            late = rng.random() < 0.4 and bool(c.inflight)
+            if late:
+              # the member's channel reports closed while its requests are still unanswered (they fail a
+              # moment later): the balancer finds it dead and marks it down first
+              classes.add('requests-outlive-mark-down')
+
+            def down(c=c, late=late):
               c.set_down()
-              for r in list(c.inflight):
+              pending_ = list(c.inflight)
+              if late:
+                for _i in range(3):
+                  issue()
+              for r in pending_:
                 if r in live:
                   live.remove(r)
                 w.complete(r, 'connection-fault')
